@@ -45,6 +45,9 @@ def run(ctx, chk):
     previous_locales_flag_rule(ctx, chk, "C03.R6")
     r7(ctx, chk)
     r8(ctx, chk)
+    from .c13 import locale_language_pairing_rule
+    locale_language_pairing_rule(ctx, chk, "C03.R9")      # a mis-paired Locale is cached process-wide under its name
+    r10(ctx, chk)
 
 
 def r8(ctx, chk):
@@ -639,3 +642,131 @@ def _only_default_settings(ctx, f):
                 if any(k.arg == "settings" for k in s.node.keywords) or len(s.node.args) > 1:
                     return None
     return "only reachable from _best_language called without settings=, i.e. always with the default Settings"
+
+
+
+_COPIERS = {"copy", "deepcopy", "copy.copy", "copy.deepcopy"}
+
+
+def _copy_of(e, name=None):
+    """is expression e a fresh container built from `name` (any name when None): copy(x), deepcopy(x), list(x), dict(x), x.copy(), x[:], type(x)(x)"""
+    def is_x(a):
+        return name is None or (isinstance(a, ast.Name) and a.id == name) or (name is not None and ast.unparse(a) == name)
+    if isinstance(e, ast.Call):
+        fn = ast.unparse(e.func)
+        if fn in _COPIERS | {"list", "dict", "OrderedDict"} and len(e.args) == 1 and is_x(e.args[0]):
+            return "deep" if fn.endswith("deepcopy") else "shallow"
+        if isinstance(e.func, ast.Attribute) and e.func.attr == "copy" and not e.args and is_x(e.func.value):
+            return "shallow"
+        if isinstance(e.func, ast.Call) and ast.unparse(e.func.func) == "type" and len(e.args) == 1 and is_x(e.args[0]):
+            return "shallow"
+        return None
+    if isinstance(e, ast.Subscript) and isinstance(e.slice, ast.Slice) and e.slice.lower is None and e.slice.upper is None and e.slice.step is None and is_x(e.value):
+        return "shallow"
+    return None
+
+
+def r10(ctx, chk):
+    """A Settings object is shared by every caller whose settings hash to the same key and is re-initialised from the latest caller's dict.
+    If its fields ARE that caller's containers (the dict kept as _mod_settings, the PARSERS / SKIP_TOKENS / ... lists), a later change the
+    caller makes to its own dict or list silently changes what an unrelated, earlier-built parser returns.  Somewhere on the way
+    apply_settings.wrapper -> Settings.replace -> Settings.__init__ -> Settings._updateall the containers must be copied."""
+    rule = "C03.R10"
+    ix = ctx.ix
+    S = "dateparser.conf:Settings"
+    upd, rep = ix.func(S + "._updateall"), ix.func(S + ".replace")
+    wrap = ix.func("dateparser.conf:apply_settings.<locals>.wrapper")
+    # every write of a Settings field from data goes through _updateall's setattr
+    other = []
+    for f in ix.funcs.values():
+        if not f.key.startswith(S + "."):
+            continue
+        for n in iter_own_nodes(f.node):
+            if isinstance(n, ast.Call) and ast.unparse(n.func) in ("setattr", "self.__dict__.update", "object.__setattr__", "vars(self).update") and f is not upd:
+                other.append((f, n))
+            if isinstance(n, ast.Subscript) and isinstance(n.ctx, ast.Store) and ast.unparse(n.value) in ("self.__dict__", "vars(self)"):
+                other.append((f, n))
+    if other:
+        raise AnalysisError(rule, "Settings fields are also written outside _updateall: %s line %d" % (other[0][0].qual, other[0][1].lineno))
+    # step 1: does the wrapper hand replace() deep copies?
+    calls = [n for n in iter_own_nodes(wrap.node) if isinstance(n, ast.Call) and isinstance(n.func, ast.Attribute) and n.func.attr == "replace"]
+    if len(calls) != 1:
+        raise AnalysisError(rule, "apply_settings.wrapper: expected one settings.replace(...) call, found %d" % len(calls))
+    c = calls[0]
+    gw = CFG(wrap.node)
+    atw = gw.node_of_expr(wrap.node, c)
+
+    def deep_here(e):
+        if _copy_of(e) == "deep":
+            return True
+        if isinstance(e, ast.Name):
+            rd = gw.reaching_defs(e.id).get(atw, set())
+            return bool(rd) and gw.entry.id not in rd and all(
+                isinstance(gw.nodes[d].stmt, ast.Assign) and _copy_of(gw.nodes[d].stmt.value) == "deep" for d in rd)
+        return False
+    star = [k.value for k in c.keywords if k.arg is None]
+    mod = [k.value for k in c.keywords if k.arg == "mod_settings"]
+    deep_values = bool(star) and all(deep_here(x) for x in star)
+    deep_mod = bool(mod) and all(deep_here(x) or _copy_of(x) for x in mod)
+    # step 2: replace() stores mod_settings under "_mod_settings"
+    st = [s for s in iter_own_stmts(rep.node.body) if isinstance(s, ast.Assign) and isinstance(s.targets[0], ast.Subscript)
+          and isinstance(s.targets[0].slice, ast.Constant) and s.targets[0].slice.value == "_mod_settings"]
+    chk.floor(rule + ".mod", len(st), 1, "stores of the caller's dict as _mod_settings in Settings.replace")
+    rep_copy = bool(st) and all(_copy_of(s.value, "mod_settings") for s in st)
+    # step 3: _updateall
+    g = CFG(upd.node)
+    sets = [n for n in iter_own_nodes(upd.node) if isinstance(n, ast.Call) and ast.unparse(n.func) == "setattr"]
+    if len(sets) != 1 or len(sets[0].args) != 3:
+        raise AnalysisError(rule, "Settings._updateall: expected one setattr(self, key, value)")
+    sa_ = sets[0]
+    v = sa_.args[2]
+    covered = set()
+    if _copy_of(v):
+        covered = {"list", "dict"}
+    elif isinstance(v, ast.Name):
+        from ..core.ctx import enclosing_tests
+        set_stmt = _stmt_of(upd.node, sa_)
+        for n in iter_own_nodes(upd.node):
+            if not (isinstance(n, ast.Assign) and len(n.targets) == 1 and isinstance(n.targets[0], ast.Name)
+                    and n.targets[0].id == v.id and _copy_of(n.value, v.id)):
+                continue
+            et = list(enclosing_tests(upd.node, n))
+            if not et:
+                if g.dominates(n, set_stmt):
+                    covered |= {"list", "dict"}         # unconditional copy before the store
+                continue
+            if len(et) != 1:
+                continue
+            t, pol = et[0]
+            # `if isinstance(value, (list, dict)): value = copy(value)` ahead of the store
+            if not (pol and isinstance(t, ast.Call) and ast.unparse(t.func) == "isinstance" and len(t.args) == 2 and ast.unparse(t.args[0]) == v.id):
+                continue
+            ifs = [x for x in iter_own_nodes(upd.node) if isinstance(x, ast.If) and x.test is t]
+            if not ifs or n not in ifs[0].body or not g.dominates(ifs[0], set_stmt):
+                continue
+            tys = t.args[1].elts if isinstance(t.args[1], ast.Tuple) else [t.args[1]]
+            names = {ast.unparse(x).split(".")[-1] for x in tys}
+            if names & {"list", "MutableSequence", "Sequence"}:
+                covered.add("list")
+            if names & {"dict", "Mapping", "MutableMapping"}:
+                covered.add("dict")
+    ok1 = deep_mod or rep_copy or "dict" in covered
+    ok2 = deep_values or "list" in covered
+    chk.ob(rule, "the dict a caller passes as settings= is not itself kept as Settings._mod_settings (read again by later calls of other parsers)", ok1,
+           "wrapper passes mod_settings=%s, replace stores %s, _updateall copies %s: the shared instance keeps the caller's dict; a key the caller adds "
+           "later (e.g. DATE_ORDER) changes what an earlier-built parser with equal settings returns" % (
+               ast.unparse(mod[0]) if mod else None, ast.unparse(st[0].value) if st else None, sorted(covered) or "nothing"),
+           key={"function": upd.key, "construct": "caller dict aliased as _mod_settings"}, file=upd.file, function=upd.qual, line=sa_.lineno,
+           text=" ".join(ast.unparse(sa_).split()))
+    chk.ob(rule, "list-valued settings (PARSERS, SKIP_TOKENS, DEFAULT_LANGUAGES, REQUIRE_PARTS) stored on the shared Settings object are not the caller's lists", ok2,
+           "_updateall stores `%s` as given (copies %s): appending to a list passed to one call changes the PARSERS/SKIP_TOKENS of every parser "
+           "sharing the settings hash" % (ast.unparse(v), sorted(covered) or "nothing"),
+           key={"function": upd.key, "construct": "caller lists aliased as fields"}, file=upd.file, function=upd.qual, line=sa_.lineno,
+           text=" ".join(ast.unparse(sa_).split()))
+
+
+def _stmt_of(fn, expr):
+    for s in iter_own_stmts(fn.body):
+        if not isinstance(s, (ast.If, ast.For, ast.While, ast.Try, ast.With)) and any(x is expr for x in ast.walk(s)):
+            return s
+    raise AnalysisError("C03.R10", "statement of expression not found")
